@@ -1,5 +1,5 @@
 (* C10 -- A failure in one call stays in that call and is reported faithfully.
-   Property theorems only; proofs live in lib/FailureProofs.v, lib/SendProofs.v, lib/SendRecvProofs.v, lib/RelayProofs.v.
+   Property theorems only; proofs live in lib/FailureProofs.v, lib/SendProofs.v, lib/SendRecvProofs.v, lib/RelayProofs.v, lib/CalleeProofs.v.
    How each model is tied to the source is said above each theorem: [T] translated from the source on every run, [C] hand-written
    and compared with the real code by a vm_compute correspondence on every run, [S] its deciding boolean / constant is a shape
    fact read from the source. *)
@@ -18,21 +18,40 @@ Local Open Scope Z_scope.
    [T get_state = get_state_src, FailureSlicer.getStateToCopy executed symbolically statement by statement (gen/FailureGen.v: the order of
    rendering, truncations, elision, the unsafeTracebacks branch, the parents loop), on the translated truncate and the limits read at the
    call sites; C byte for byte against the real FailureSlicer]  for EVERY exception raised on the callee (FailureSlicer; a CopiedFailure that a
-   middle party sends on goes through CopiedFailureSlicer instead: C10_relay_end_to_end) -- any class name, any message text (including text that UTF-8 cannot encode, which is escaped
-   \udXXX), a __str__ that raises (reflect.safe_str's text is used), any traceback text, any ancestry -- with or without
-   unsafe tracebacks, getStateToCopy returns (it cannot raise inside the slicer); every field it sends satisfies the byte
-   limits that the caller's FailureConstraint enforces (so the caller cannot raise a local Violation on it); and every
-   field is the (escaped) original text, or -- when that is longer than the limit -- a prefix of whole characters of it
-   followed by "..".  The limits on both sides, the truncate function, the error handler of the text encoding and the
-   rendering of the exception value are read from the source.  No hypothesis: this is the full statement. *)
-Theorem C10_failure_fits : forall unsafe e,
+   middle party sends on goes through CopiedFailureSlicer instead: C10_relay_end_to_end) WHOSE CLASS CAN BE NAMED -- any class name, any
+   message text (including text that UTF-8 cannot encode, which is escaped \udXXX), a __str__ that raises (reflect.safe_str's text is
+   used), any traceback text, any ancestry -- with or without unsafe tracebacks, getStateToCopy returns (it does not raise inside the
+   slicer); every field it sends satisfies the byte limits that the caller's FailureConstraint enforces (so the caller cannot raise a
+   local Violation on it); and every field is the (escaped) original text, or -- when that is longer than the limit -- a prefix of
+   whole characters of it followed by "..".  The limits on both sides, the truncate function, the error handler of the text encoding
+   and the rendering of the exception value are read from the source.
+   WEAKER THAN THE PROPERTY ("exceptions of any class"), and said so: the hypothesis `e_type e = Ok ty` / `e_parents e = Ok pa` --
+   reflect.qual(obj.type) and obj.parents (reflect.qual of every class of the MRO) return -- is NOT discharged by the code:
+   getStateToCopy calls them unguarded, and reflect.qual is `clazz.__module__ + "." + clazz.__name__`, a TypeError for
+   type("NoMod", (Exception,), {"__module__": None}).  (Until review 2 the model took both as ready-made texts and this theorem
+   claimed "no hypothesis".)  The excluded region is C10_failure_unnameable_refuted; the guard is exact: C10_failure_returns_iff. *)
+Theorem C10_failure_fits : forall unsafe e ty pa, e_type e = Ok ty -> e_parents e = Ok pa ->
   exists s, get_state unsafe e = Ok s /\ failure_constraint_ok s = true /\
     field_of (escape (rendered e)) trunc_limit_value (s_value s) /\
-    field_of (escape (e_type e)) trunc_limit_type (s_type s) /\
+    field_of (escape ty) trunc_limit_type (s_type s) /\
     field_of (escape (elide (if unsafe then e_stack e else default_traceback))) trunc_limit_traceback (s_traceback s) /\
-    Forall2 (fun p b => field_of (escape p) trunc_limit_parents b) (e_parents e) (s_parents s).
+    Forall2 (fun p b => field_of (escape p) trunc_limit_parents b) pa (s_parents s).
 Proof. exact failure_fits. Qed.
 Print Assumptions C10_failure_fits.
+
+(* the region the hypothesis of C10_failure_fits excludes, where the property's statement is FALSE of the faithful model and of
+   the code (known finding oracle/sibling-affected/exception-class-without-module, replayed on real Brokers by harness/c10.py: both
+   Brokers disconnected, siblings and later calls get DeadReferenceError): for a class that cannot be named -- its own __module__, or
+   that of any class of its MRO, is not a string -- getStateToCopy raises, inside Banana.produce ...  (nameable e = the two
+   hypotheses above as one boolean; inside the guard: FailureProofs.ex_surrogate_and_badstr, ex_ancestry; outside: ex_unnameable) *)
+Theorem C10_failure_unnameable_refuted : forall unsafe e, nameable e = false -> exists t, get_state unsafe e = Exc t.
+Proof. exact failure_unnameable_raises. Qed.
+Print Assumptions C10_failure_unnameable_refuted.
+
+(* ... and for no other exception: getStateToCopy returns if and only if the class and every ancestor can be named *)
+Theorem C10_failure_returns_iff : forall unsafe e, (exists s, get_state unsafe e = Ok s) <-> nameable e = true.
+Proof. exact get_state_returns_iff. Qed.
+Print Assumptions C10_failure_returns_iff.
 
 (* escaping never fails and changes nothing in text that UTF-8 can encode *)
 Theorem C10_escape : forall t, wf_text (escape t) /\ (wf_text t -> escape t = t).
@@ -137,8 +156,10 @@ Print Assumptions C10_open_numbers_in_step.
    batch, with the real handleViolation calls as flags]  The counting receiver is an ABSTRACTION of handleData under the shape fact
    "every PB unslicer's reportViolation returns the failure": its `cdown` is constant and its `cdepth` counts OPEN/CLOSE only, so
    of the three conclusions only the third (discarding ends with the top-level object) says something about rejections, and it is
-   coded into cstep's CLOSE clause.  What constrains the discardCount arithmetic of handleViolation is the correspondence, and --
-   as a theorem -- C10_real_receiver_in_step_partial below, stated on C07's statement-by-statement transcription of handleData.
+   coded into cstep's CLOSE clause.  By itself it does not say that discarding ever STARTS (review 2: a receiver that ignored ABORT
+   satisfies it): that is C10_abort_discards_whole_object below.  What constrains the discardCount arithmetic of handleViolation is
+   the correspondence, and -- as a theorem -- C10_real_receiver_in_step_partial below, stated on C07's statement-by-statement
+   transcription of handleData.
    "an argument ... violates a schema on either side ... fails exactly that call ... every other outstanding or later call
    is unaffected", receive side: for every sequence of slicer behaviours and EVERY choice of the tokens at which unslicers of
    the receiving side raise Violation (schema violations, unknown method/object, an `error`/`answer` for a request that was
@@ -152,6 +173,19 @@ Theorem C10_receiver_rejections_contained : forall c evs flags,
   cdown r = false /\ cdepth r = List.length (stack s) /\ (stack s = [] -> cdiscard r = false).
 Proof. exact receiver_rejections_contained. Qed.
 Print Assumptions C10_receiver_rejections_contained.
+
+(* "an argument ... that cannot be serialized ... fails exactly that call", what the receiver does with the sender's ABORT [C as above]:
+   an ABORT inside a sequence (handleSendViolation writes one for every open sequence of the failed object) starts discarding, and
+   for EVERY continuation that stays inside that top-level object (`inside`: the nesting never returns to 0) -- any tokens, any
+   choice of tokens at which the receiver's own unslicers raise -- the receiver goes on discarding: nothing of an aborted call is
+   handed on after the ABORT.  Together with the third conclusion above: discarding lasts exactly to the end of that object.
+   (Non-vacuity on the sender's own stream: SendProofs.ex_abort_discards.) *)
+Theorem C10_abort_discards_whole_object : forall c n v ts flags, (1 <= cdepth c)%nat -> List.length flags = List.length ts ->
+  inside (cdepth c) ts = true ->
+  let r := crun (cstep c (TAbort n, v)) (combine ts flags) in
+  cdiscard r = true /\ cdepth r = dep (cdepth c) ts.
+Proof. exact abort_discards_whole_object. Qed.
+Print Assumptions C10_abort_discards_whole_object.
 
 (* "the caller's failure identifies the remote exception's type (by class name ...)": the class object in f.type is built
    from the transmitted name alone; its __module__ + "." + __name__ (reflect.qual) is that name again *)
@@ -175,7 +209,7 @@ Print Assumptions C10_deliveries_all_handled.
    FailureConstraint whichever of them travel as VOCAB tokens (a connection with a negotiated vocabulary table sends a field
    that is exactly a table word -- an exception message "error", "list", "none" ... -- as VOCAB).  The taster of a bounded
    ByteStringConstraint is read from the source. *)
-Theorem C10_failure_fits_any_encoding : forall unsafe e vocab,
+Theorem C10_failure_fits_any_encoding : forall unsafe e vocab, nameable e = true ->
   exists s, get_state unsafe e = Ok s /\ failure_constraint_ok_enc vocab s = true.
 Proof. exact failure_fits_any_encoding. Qed.
 Print Assumptions C10_failure_fits_any_encoding.
@@ -193,8 +227,8 @@ Print Assumptions C10_fail_fires_once.
 (* "The caller's failure identifies the remote exception's type (by class name ...) and carries a prefix of its message":
    a class name / a message that UTF-8 can encode and that fits the limit (200 / 1000 bytes) arrives byte for byte
    (C10_failure_fits covers the rest: escaped, or a whole-character prefix + "..") *)
-Theorem C10_type_and_message_exact : forall unsafe e s, get_state unsafe e = Ok s ->
-  (wf_text (e_type e) -> blen (utf8 (e_type e)) <= trunc_limit_type -> s_type s = utf8 (e_type e)) /\
+Theorem C10_type_and_message_exact : forall unsafe e s ty, get_state unsafe e = Ok s -> e_type e = Ok ty ->
+  (wf_text ty -> blen (utf8 ty) <= trunc_limit_type -> s_type s = utf8 ty) /\
   (wf_text (rendered e) -> blen (utf8 (rendered e)) <= trunc_limit_value -> s_value s = utf8 (rendered e)).
 Proof. exact type_and_message_exact. Qed.
 Print Assumptions C10_type_and_message_exact.
@@ -202,20 +236,20 @@ Print Assumptions C10_type_and_message_exact.
 (* "(... and ancestry)": the transmitted ancestry has the length (and, by C10_failure_fits' Forall2, the order) of the
    original one; check()/trap() on the caller -- a membership test on these strings -- finds every ancestor whose name
    fits, whatever was truncated around it; and every transmitted entry is the field of an original ancestor *)
-Theorem C10_ancestry_preserved : forall unsafe e s, get_state unsafe e = Ok s ->
-  List.length (s_parents s) = List.length (e_parents e) /\
-  (forall n, In n (e_parents e) -> wf_text n -> blen (utf8 n) <= trunc_limit_parents ->
+Theorem C10_ancestry_preserved : forall unsafe e s pa, get_state unsafe e = Ok s -> e_parents e = Ok pa ->
+  List.length (s_parents s) = List.length pa /\
+  (forall n, In n pa -> wf_text n -> blen (utf8 n) <= trunc_limit_parents ->
              delivered_check (Copied s) (utf8 n) = true) /\
   (forall b, delivered_check (Copied s) b = true ->
-             exists p, In p (e_parents e) /\ field_of (escape p) trunc_limit_parents b).
+             exists p, In p pa /\ field_of (escape p) trunc_limit_parents b).
 Proof. exact ancestry_preserved. Qed.
 Print Assumptions C10_ancestry_preserved.
 
 (* the ancestry is transmitted entry by entry: every prefix of the original ancestry gives the same prefix of the
    transmitted one and leaves the other fields alone (no entry, and no limit, depends on another entry) *)
-Theorem C10_ancestry_prefix_closed : forall unsafe e s k, get_state unsafe e = Ok s ->
+Theorem C10_ancestry_prefix_closed : forall unsafe e s k pa, get_state unsafe e = Ok s -> e_parents e = Ok pa ->
   exists s', get_state unsafe {| e_type := e_type e; e_str := e_str e; e_fallback := e_fallback e; e_stack := e_stack e;
-                                 e_parents := firstn k (e_parents e) |} = Ok s' /\
+                                 e_parents := Ok (firstn k pa) |} = Ok s' /\
              s_parents s' = firstn k (s_parents s) /\ s_type s' = s_type s /\ s_value s' = s_value s /\
              s_traceback s' = s_traceback s.
 Proof. exact ancestry_prefix_closed. Qed.
@@ -232,16 +266,17 @@ Theorem C10_hidden_is_uniform : forall s1 s2 n,
 Proof. exact hidden_is_uniform. Qed.
 Print Assumptions C10_hidden_is_uniform.
 
-(* the second sentence of the property, end to end, by composition of the theorems above: for EVERY exception and both
+(* the second sentence of the property, end to end, by composition of the theorems above: for EVERY exception whose class can be
+   named (the hypothesis of C10_failure_fits, not discharged by the code: C10_failure_unnameable_refuted) and both
    settings of both options the report reaches the caller's Deferred -- getStateToCopy does not raise, the caller's
    FailureConstraint accepts ("never mistaken for a local schema problem") -- wrapped iff types are hidden; exposed: the type
    name and every ancestor that fit are identified; hidden: RemoteException, uniformly *)
-Theorem C10_report_end_to_end : forall unsafe expose e,
+Theorem C10_report_end_to_end : forall unsafe expose e ty pa, e_type e = Ok ty -> e_parents e = Ok pa ->
   exists s, get_state unsafe e = Ok s /\
     report unsafe expose e = Ok (if expose then Copied s else Wrapped s) /\
-    (expose = true -> wf_text (e_type e) -> blen (utf8 (e_type e)) <= trunc_limit_type ->
-       delivered_type (deliver expose s) = utf8 (e_type e)) /\
-    (expose = true -> forall n, In n (e_parents e) -> wf_text n -> blen (utf8 n) <= trunc_limit_parents ->
+    (expose = true -> wf_text ty -> blen (utf8 ty) <= trunc_limit_type ->
+       delivered_type (deliver expose s) = utf8 ty) /\
+    (expose = true -> forall n, In n pa -> wf_text n -> blen (utf8 n) <= trunc_limit_parents ->
        delivered_check (deliver expose s) (utf8 n) = true) /\
     (expose = false -> delivered_type (deliver expose s) = remote_exception_name /\
        forall n, delivered_check (deliver expose s) n = existsb (list_eqb n) remote_exception_parents).
@@ -296,10 +331,10 @@ Print Assumptions C10_sibling_after_any_history_partial.
 
 (* the RELAY path (A calls B, B calls C, C fails; B sends its CopiedFailure on through CopiedFailureSlicer.getStateToCopy, which
    does not truncate and rebuilds the type name with reflect.qual of the stand-in class).  [S the statement list of that function;
-   C relay_state against the real CopiedFailureSlicer]  For EVERY exception of a class whose qualified name has a dot (reflect.qual:
-   module + "." + name, always), every tracebacks setting at C and at B and both expose settings at A: the relayed report reaches
+   C relay_state against the real CopiedFailureSlicer]  For EVERY exception of a class that can be named (C10_failure_fits'
+   hypothesis) and whose qualified name has a dot (reflect.qual: module + "." + name, always), every tracebacks setting at C and at B and both expose settings at A: the relayed report reaches
    A's Deferred -- B's slicer does not raise, A's FailureConstraint accepts -- with the type name, message and ancestry C sent *)
-Theorem C10_relay_end_to_end : forall unsafe_c unsafe_b expose_a e, In 46 (e_type e) ->
+Theorem C10_relay_end_to_end : forall unsafe_c unsafe_b expose_a e ty pa, e_type e = Ok ty -> e_parents e = Ok pa -> In 46 ty ->
   exists s, get_state unsafe_c e = Ok s /\
     relayed_report unsafe_c unsafe_b expose_a e = Ok (deliver expose_a (relay_state unsafe_b s)) /\
     s_type (relay_state unsafe_b s) = s_type s /\ s_value (relay_state unsafe_b s) = s_value s /\
@@ -320,11 +355,16 @@ Print Assumptions C10_relay_dotless_refuted.
    interpreted by lib/Callee.v; C: the interpreted programs against the instrumented callee Broker of every batch]
    For EVERY history of inbound calls with distinct request ids -- rejected by the CallUnslicer (unknown object, unknown method,
    argument the schema rejects, the caller's ABORT) or delivered; arguments ready or not (gifts); the method returning, raising
-   anything, or not existing; the result accepted or not by the callee's schema; the answer serializable or not; any exception
-   (FailureSlicer is total: C10_failure_fits); any logging setting -- every call gets exactly the replies the property promises:
-   one `answer` or `error`, none for a call the caller itself aborted; nothing is swallowed; the connection stays up.
-   inbound_ok excludes exactly one thing, shown below to break the statement on the faithful model: a non-Violation exception
-   while the answer is serialized (C10_answer_crash_drops_connection; C10_crash_drops_connection's case).  The second former
+   anything, or not existing; the result accepted or not by the callee's schema; the answer serializable or not; any logging setting
+   -- every call gets exactly the replies the property promises: one `answer` or `error`, none for a call the caller itself
+   aborted; nothing is swallowed; the connection stays up.  WHICH reply, with what in it: C10_history_replies below.
+   inbound_ok = non-zero id and, per call, the EXACT guard (C10_delivery_guard_exact / C10_rejected_guard_exact: the connection
+   survives the call if and only if it holds): the message that is due can be serialized without a non-Violation exception --
+   when an `error` is due (must_fail, or a rejection that is not the caller's ABORT) the exception's class can be named (FailureSlicer
+   returns exactly then: C10_failure_returns_iff; until review 2 the model took FailureSlicer to be total), when an `answer` is due
+   the AnswerSlicer does not crash.  Both excluded regions break the statement on the faithful model and on the code:
+   C10_unnameable_error_drops_connection_refuted (known finding exception-class-without-module) and
+   C10_answer_crash_drops_connection (C10_crash_drops_connection's case).  The former third
    exclusion -- local-failure log on while the target / arguments cannot be formatted -- is gone since foolscap guards the log
    entry (fix eec6df0; the guard is read from the source: CLogFailureGuarded): C10_unrenderable_delivery_answered. *)
 Theorem C10_every_call_answered_once : forall ins s, cup s = true -> Forall inbound_ok ins -> NoDup (map reqid_of ins) ->
@@ -359,15 +399,67 @@ Theorem C10_every_call_answered_once_with_one_way : forall ins s, cup s = true -
 Proof. exact every_call_answered_once_with_one_way. Qed.
 Print Assumptions C10_every_call_answered_once_with_one_way.
 
+(* WHICH replies (review 2: outcome_ok / `replies` only count messages per request id; a model that answered a raising method
+   with an `answer`, whose checkResults always accepted, or whose _doCall failed only when the log could not render, passed every
+   universal theorem above).  For EVERY history (one-way calls anywhere, ids need not even be distinct) whose calls are inside
+   the exact guard: what is handed to Broker.send is, call by call in arrival order, exactly reply_of -- an `error` carrying
+   FailureSlicer's state of the call's exception (the_state: C10_failure_fits applies to it) exactly when the arguments did not become
+   ready, the method raised, or the callee's schema rejects the result (must_fail), or the call was rejected while being received and
+   not by the caller's ABORT; otherwise the `answer` (seen aborted by the caller when an AnswerSlicer raised Violation); nothing for
+   one-way calls and for the caller's ABORT; nothing else -- and the connection is up.  (Non-vacuity: CalleeProofs.ex_history.) *)
+Theorem C10_history_replies : forall ins s, cup s = true -> Forall inbound_ok1 ins ->
+  sent (handle_all ins s) = sent s ++ flat_map reply_of ins /\ cup (handle_all ins s) = true.
+Proof. exact history_replies. Qed.
+Print Assumptions C10_history_replies.
+
+(* one delivery: WHICH reply *)
+Theorem C10_reply_kind : forall e s, cup s = true -> d_reqid e <> 0 -> delivery_ok e ->
+  sent (handle (InDelivered e) s) = sent s ++
+    [if must_fail e then MError (d_reqid e) (the_state e)
+     else match d_answer e with SViolation => MAnswerAborted (d_reqid e) | _ => MAnswer (d_reqid e) end].
+Proof. exact reply_kind. Qed.
+Print Assumptions C10_reply_kind.
+
+(* the guards are exact: the connection survives a delivery / a rejected call IF AND ONLY IF delivery_ok / rejected_ok ... *)
+Theorem C10_delivery_guard_exact : forall e s, cup s = true -> d_reqid e <> 0 ->
+  (cup (handle (InDelivered e) s) = true <-> delivery_ok e).
+Proof. exact delivery_guard_exact. Qed.
+Print Assumptions C10_delivery_guard_exact.
+
+Theorem C10_rejected_guard_exact : forall abort e s, cup s = true -> d_reqid e <> 0 ->
+  (cup (handle (InRejected abort e) s) = true <-> rejected_ok abort e).
+Proof. exact rejected_guard_exact. Qed.
+Print Assumptions C10_rejected_guard_exact.
+
+(* ... and the first delivery outside the guard ends the history: the calls before it got their replies, it gets none, the
+   connection is down and nothing that follows reaches the wire (siblings and later calls are lost; the real callee may still RUN calls
+   that had already arrived -- their answers go nowhere, which is what the crash-path correspondence compares).
+   Non-vacuity: CalleeProofs.ex_history_outside_guard *)
+Theorem C10_history_guard_exact : forall pre e post s, cup s = true -> Forall inbound_ok1 pre -> d_reqid e <> 0 -> ~ delivery_ok e ->
+  let s' := handle_all (pre ++ InDelivered e :: post) s in
+  cup s' = false /\ sent s' = sent s ++ flat_map reply_of pre.
+Proof. exact history_guard_exact. Qed.
+Print Assumptions C10_history_guard_exact.
+
+(* the region excluded when an `error` is due: "an exception raised by the method (any type ...) fails exactly that call" is FALSE
+   of the faithful model and of the code for an exception whose class cannot be named (known finding
+   oracle/sibling-affected/exception-class-without-module; witness CalleeProofs.ex_unnameable_drops = the oracle's input
+   type("NoMod", (Exception,), {"__module__": None}) raised between two fault-free calls, replayed on real Brokers on every run) *)
+Theorem C10_unnameable_error_drops_connection_refuted : forall e s, cup s = true -> d_reqid e <> 0 -> must_fail e = true ->
+  nameable (d_exc e) = false -> cup (handle (InDelivered e) s) = false.
+Proof. exact unnameable_error_drops_connection. Qed.
+Print Assumptions C10_unnameable_error_drops_connection_refuted.
+
 (* one delivery, with everything it leaves behind: one message for its request id, its activeLocalCalls entry gone *)
-Theorem C10_delivery_answered_once : forall e s, cup s = true -> d_reqid e <> 0 -> d_answer e <> SCrash ->
+Theorem C10_delivery_answered_once : forall e s, cup s = true -> d_reqid e <> 0 -> delivery_ok e ->
   outcome_ok (d_reqid e) 1 (active s) s (handle (InDelivered e) s).
 Proof. exact delivery_answered_once. Qed.
 Print Assumptions C10_delivery_answered_once.
 
-(* a call rejected while it is received: one `error` (no condition at all: callFailed gets no delivery, nothing is formatted);
+(* a call rejected while it is received: one `error` (callFailed gets no delivery, nothing is formatted; the one condition: the class
+   of the failure can be named -- on the real callee it is foolscap's Violation);
    none if it was the caller's ABORT -- and then the activeLocalCalls entry stays (observed on the real Broker too) *)
-Theorem C10_rejected_answered_once : forall abort e s, cup s = true -> d_reqid e <> 0 ->
+Theorem C10_rejected_answered_once : forall abort e s, cup s = true -> d_reqid e <> 0 -> rejected_ok abort e ->
   outcome_ok (d_reqid e) (expected_replies (InRejected abort e)) (if abort then d_reqid e :: active s else active s)
              s (handle (InRejected abort e) s).
 Proof. exact rejected_answered_once. Qed.
@@ -377,14 +469,14 @@ Print Assumptions C10_rejected_answered_once.
    by guarding the log entry; the input stays a regression witness under the same signature): with the local-failure log on, a
    failing call on a target -- or with arguments -- whose "%s" formatting raises is answered by its `error` like any other;
    nothing is swallowed, the activeLocalCalls entry is gone *)
-Theorem C10_unrenderable_delivery_answered : forall e s, cup s = true -> d_reqid e <> 0 -> d_answer e <> SCrash ->
+Theorem C10_unrenderable_delivery_answered : forall e s, cup s = true -> d_reqid e <> 0 -> nameable (d_exc e) = true ->
   d_log_local e = true -> d_repr_raises e = true -> d_raises e = true ->
   let s' := handle (InDelivered e) s in
-  (exists fs, sent s' = sent s ++ [MError (d_reqid e) fs]) /\ active s' = active s /\ swallowed s' = swallowed s /\ cup s' = true.
+  sent s' = sent s ++ [MError (d_reqid e) (the_state e)] /\ active s' = active s /\ swallowed s' = swallowed s /\ cup s' = true.
 Proof. exact unrenderable_delivery_answered. Qed.
 Print Assumptions C10_unrenderable_delivery_answered.
 
-(* the excluded case: a non-Violation exception while the answer is serialized drops the connection (known finding) *)
+(* the region excluded when an `answer` is due: a non-Violation exception while the answer is serialized drops the connection (known finding) *)
 Theorem C10_answer_crash_drops_connection : forall e s, cup s = true -> d_ready e = true -> d_raises e = false ->
   (d_schema e = false \/ d_result_ok e = true) -> d_reqid e <> 0 -> d_answer e = SCrash ->
   cup (handle (InDelivered e) s) = false.
